@@ -467,6 +467,62 @@ def run(ctx):
            what="port_is_enabled decides where to look for the enabling port wrongly for %s: a sibling toggle whose name merely begins like the sub-tree's is looked up inside the sub-tree" % [(b_["port"], b_["enabled_by"]) for b_ in bad12[:4]])
 
     # ---------------- R09.7
+    # ---- R09.13: only a null child object prunes a sub-tree
+    ctx.rule("R09.13", "NULL-ONLY: after the recursion callback has stored the child's runtime object, walk_ports_recurse takes the sub-tree for absent exactly when that pointer is null - evaluated for a null pointer, "
+                       "a pointer equal to the parent's object (a sub-object at offset 0, element 0 of an array that is the first member) and another pointer")
+    fwr = u.function("walk_ports_recurse")
+    prm13 = {p_.get("name"): p_["id"] for p_ in u.params(fwr)}
+    cand13 = []
+    for x in A.walk(u.body(fwr)):
+        rhs13 = None
+        if x.get("kind") == "BinaryOperator" and x.get("opcode") == "=" and A.ref_id(A.kids(x)[0]) is not None:
+            rhs13 = A.kids(x)[1]
+        elif x.get("kind") == "VarDecl" and A.kids(x) and x.get("id") not in prm13.values():
+            rhs13 = A.kids(x)[-1]
+        if rhs13 is not None and any(y.get("kind") == "MemberExpr" and y.get("name") == "obj" for y in A.walk(rhs13)) and "bool" in (A.qtype(x if x.get("kind") == "VarDecl" else A.kids(x)[0]) or ""):
+            cand13.append((x, rhs13))
+    # ... or the test stands in a condition: on the stored pointer itself, or on a local that holds it (taken from `r.obj`
+    # or from a helper of the unit that returns it)
+    child13 = set()
+    for d_ in A.walk(u.body(fwr)):
+        if d_.get("kind") == "VarDecl" and "*" in (A.qtype(d_) or "") and A.kids(d_) and d_.get("id") not in prm13.values():
+            init_ = A.strip_casts(A.kids(d_)[-1])
+            if init_.get("kind") == "MemberExpr" and init_.get("name") == "obj":
+                child13.add(d_["id"])
+            elif init_.get("kind") == "CallExpr":
+                hs_ = [f_ for f_ in u.functions.get(A.callee_name(init_) or "", []) if u.body(f_) is not None]
+                if len(hs_) == 1 and any(r_.get("kind") == "ReturnStmt" and A.kids(r_) and A.strip_casts(A.kids(r_)[0]).get("kind") == "MemberExpr" and A.strip_casts(A.kids(r_)[0]).get("name") == "obj"
+                                         for r_ in A.walk(u.body(hs_[0]))):
+                    child13.add(d_["id"])
+    for x in A.walk(u.body(fwr)):
+        if x.get("kind") == "IfStmt":
+            c_ = A.kids(x)[(1 if x.get("hasInit") else 0) + (1 if x.get("hasVar") else 0)]
+            if any((y.get("kind") == "MemberExpr" and y.get("name") == "obj") or (y.get("kind") == "DeclRefExpr" and (y.get("referencedDecl") or {}).get("id") in child13) for y in A.walk(c_)):
+                cand13.append((x, c_))
+    ctx.require(len(cand13) >= 1, "R09.13: walk_ports_recurse: the test of the child's runtime object was not found")
+    P13, Q13 = 0x5000, 0x6000
+    for x13, rhs13 in cand13:
+        tab13 = {}
+        for name13, obj13 in (("null", 0), ("the parent's object", P13), ("another object", Q13)):
+            def hook13(n_, ev_, obj13=obj13):
+                if n_.get("kind") == "MemberExpr" and n_.get("name") == "obj":
+                    return obj13
+                if n_.get("kind") == "DeclRefExpr" and (n_.get("referencedDecl") or {}).get("id") in child13:
+                    return obj13
+                if n_.get("kind") == "DeclRefExpr" and (n_.get("referencedDecl") or {}).get("kind") == "ParmVarDecl" and "void" in (A.qtype(n_) or "") and "*" in (A.qtype(n_) or ""):
+                    return P13
+                if n_.get("kind") in ("CXXBoolLiteralExpr",):
+                    return 1 if n_.get("value") else 0
+                return NotImplemented
+            try:
+                tab13[name13] = bool(FD.Eval(node_hook=hook13, max_steps=200).ev(rhs13))
+            except FD.Unknown as e:
+                raise AnalysisBroken("R09.13: the flag `%s` is not evaluable: %s" % (A.src(x13)[:60], e))
+        ok13 = tab13["the parent's object"] == tab13["another object"] != tab13["null"]
+        ctx.ob("R09.13", "walk_ports_recurse: child object present@%s" % A.loc(x13)[1], ok13, site=A.where(x13), detail={"test_is_true_for": tab13},
+               key="R09.13:walk_ports_recurse:%d" % cand13.index((x13, rhs13)),
+               what="walk_ports_recurse tests the child's runtime object with a condition that is true for %s: it must tell a null pointer from every other one and nothing else (a sub-object at offset 0 has its parent's address)" % tab13)
+
     ctx.rule("R09.7", "ENABLER-ONCE: port_is_enabled applies the walker to the enabling toggle exactly when the port is disabled and ordinary traversal would not reach the toggle, i.e. when it lies below the port it disables - inside the sub-tree (`subport`) or, for a sub-tree's own `self:` entry, always (the path is then relative to the sub-tree itself): the guard of the walker call, evaluated over all truth values, is !enabled && (subport || !relative_to_parent)")
     upp = ctx.ast("ports.cpp")
     pie = upp.function("port_is_enabled")
